@@ -115,7 +115,7 @@ def sampled_stand_in_step(unit, rows_of, n_per_row=20000, far_n=40):
     return step
 
 
-def run(prop, unit, tier, assumptions, samples, not_decided, slow=(), extra_units=(), extra_steps=None, quick_skip=None):
+def run(prop, unit, tier, assumptions, samples, not_decided, slow=(), extra_units=(), extra_steps=None, quick_skip=None, slow_jobs=3):
     u = kx.UNITS[unit]
     _non, not_cov = not_instruction_methods(os.path.join(common.VERIF, u['rows']))
     slow_set = set(slow) | slow_rows(os.path.join(common.VERIF, u['rows']))
@@ -125,14 +125,21 @@ def run(prop, unit, tier, assumptions, samples, not_decided, slow=(), extra_unit
             return None
         rows = kx.row_names(os.path.join(common.VERIF, u['rows']))
         if t == 'thorough':
-            # `__sweep` rows are executed only (symbolic filler counts are out of CBMC's reach; the unbounded statement is the Verus unit's)
-            return set(r for r in rows if not r.endswith('_sweep'))
+            # `__sweep` rows are executed only (symbolic filler counts are out of CBMC's reach; the unbounded statement is the Verus unit's).
+            # two passes: the quick-tier rows at full parallelism, then the slow / memory-hungry rows a few at a time (10-20 GB each)
+            allr = [r for r in rows if not r.endswith('_sweep')]
+            fast = set(r for r in allr if r not in slow_set and not (quick_skip and quick_skip(r)))
+            slow_ = set(allr) - fast
+            return [dict(only=fast, jobs=14, timeout=7200), dict(only=slow_, jobs=slow_jobs, timeout=6 * 3600)]
         return set(r for r in rows if r not in slow_set and not r.endswith('_sweep') and not (quick_skip and quick_skip(r)))
     steps = [extra_steps] if extra_steps else []
 
     def skipped_rows():
         rows = kx.row_names(os.path.join(common.VERIF, u['rows']))
-        return [r for r in rows if r not in row_filter(unit, tier)]
+        f = row_filter(unit, tier)
+        if isinstance(f, list):
+            f = set().union(*[ps['only'] for ps in f])
+        return [r for r in rows if r not in f]
     steps.append(sampled_stand_in_step(unit, skipped_rows))
 
     def all_steps(rep, cov):
